@@ -37,7 +37,7 @@ def main():
         seeds = [s for s in seeds if os.path.basename(os.path.dirname(s)) in only]
     mpath = os.path.join(VERIF, "seeded", "matrix.json")
     res = json.load(open(mpath)) if os.path.exists(mpath) else {}
-    with ThreadPoolExecutor(max_workers=6) as ex:
+    with ThreadPoolExecutor(max_workers=12) as ex:
         for sid, out in ex.map(run_seed, seeds):
             res[sid] = out
             own = sid.split("-")[0]
